@@ -867,9 +867,19 @@ func (e *Env) applySpec(sf *SpecFunc, args []tval) (tval, error) {
 		cs = append(cs, e.vc().memOf(e.st, Sort(rd)))
 		ss = append(ss, Sort(memSort(Sort(rd))))
 	}
-	for _, a := range args {
+	for i, a := range args {
 		cs = append(cs, a.C...)
 		ss = append(ss, e.sortsOf(a)...)
+		// deep parameters (declared []T or *T): the function also depends on the rows the
+		// reference points into; passing the resolved row terms makes unchanged memory give equal terms
+		if i < len(sf.Params) && (strings.HasPrefix(sf.Params[i][1], "[]") || strings.HasPrefix(sf.Params[i][1], "*")) && a.T != nil {
+			if et, ok := refElem(a.T); ok && e.l().flatOK(et) {
+				for _, srt := range uniqSorts(e.l().layout(et)) {
+					cs = append(cs, e.vc().rowOf(e.st, srt, a.C[0]))
+					ss = append(ss, Sort("(Array Int "+string(srt)+")"))
+				}
+			}
+		}
 	}
 	if len(rs) != 1 {
 		return tval{}, fmt.Errorf("spec function %s must return a scalar sort", sf.Name)
